@@ -307,7 +307,7 @@ Qed.
 (* ------------------------------------------------------------------ finite domains are complete *)
 Lemma variant_in : forall v : variant, In v all_variants.
 Proof.
-  intros [[] [] [] []]; vm_compute; tauto.
+  intros [[] [] [] [] [] []]; vm_compute; tauto.
 Qed.
 
 Lemma mode_in : forall md : hmode, md <> HReturn -> In md contract_modes.
@@ -317,7 +317,7 @@ Qed.
 
 Lemma scenario_in : forall sc : scenario, In sc all_scenarios.
 Proof.
-  intros [[]|[] []| |[] []|[]|[] []]; vm_compute; tauto.
+  intros [[]|[] []| |[] []|[]|[] []|[]|[]]; vm_compute; tauto.
 Qed.
 
 Lemma check_all_spec : forall (f : variant -> hmode -> scenario -> bool),
@@ -340,14 +340,24 @@ Definition value_of {A : Type} (x : A * trace * list bool) : A := fst (fst x).
 Definition asked_of {A : Type} (x : A * trace * list bool) : list bool := snd x.
 
 (* ------------------------------------------------------------------ protocol theorems *)
+Lemma protocol_safe_b :
+  forall (v : variant) (md : hmode) (sc : scenario) (o : nat -> bool), md <> HReturn ->
+    safe_clause_holds v sc = true ->
+    safe_trace (trace_of (run (scenario_prog v md sc) o 0)) = true.
+Proof.
+  intros v md sc o N C.
+  pose proof (check_all_spec f_safe check_safe_true v md sc N) as H. unfold f_safe in H.
+  rewrite C in H. cbv beta iota delta [negb orb] in H.
+  rewrite forallb_forall in H. specialize (H _ (run_in_paths _ (scenario_prog v md sc) o 0)).
+  unfold trace_of. destruct (run (scenario_prog v md sc) o 0) as [[r t] q]. exact H.
+Qed.
+
 Lemma protocol_safe :
   forall (v : variant) (md : hmode) (sc : scenario) (o : nat -> bool), md <> HReturn ->
+    safe_clause_holds v sc = true ->
     exists h : list nat, Safe [] (trace_of (run (scenario_prog v md sc) o 0)) h.
 Proof.
-  intros v md sc o N. apply safe_trace_sound.
-  pose proof (check_all_spec f_safe check_safe_true v md sc N) as H. unfold f_safe in H.
-  rewrite forallb_forall in H. specialize (H _ (run_in_paths _ (scenario_prog v md sc) o 0)).
-  destruct (run (scenario_prog v md sc) o 0) as [[r t] q]. exact H.
+  intros v md sc o N C. apply safe_trace_sound. apply protocol_safe_b; assumption.
 Qed.
 
 Lemma protocol_failure_iff :
@@ -375,38 +385,53 @@ Qed.
 
 Lemma protocol_leak_free :
   forall (v : variant) (md : hmode) (sc : scenario) (o : nat -> bool), md <> HReturn ->
-    leak_clause_holds v sc = true ->
+    safe_clause_holds v sc = true -> leak_clause_holds v sc = true ->
     forall owned : list nat,
       value_of (run (scenario_prog v md sc) o 0) = Val owned ->
       forall id : nat,
         allocated_in (trace_of (run (scenario_prog v md sc) o 0)) id <-> In id owned.
 Proof.
-  intros v md sc o N L owned V id.
-  pose proof (check_all_spec f_leak check_leak_true v md sc N) as H. unfold f_leak in H. rewrite L in H. cbv beta iota delta [negb orb] in H.
+  intros v md sc o N C L owned V id.
+  pose proof (check_all_spec f_leak check_leak_true v md sc N) as H. unfold f_leak in H.
+  rewrite L, C in H. cbv beta iota delta [negb orb] in H.
   rewrite forallb_forall in H. specialize (H _ (run_in_paths _ (scenario_prog v md sc) o 0)).
-  pose proof (check_all_spec f_safe check_safe_true v md sc N) as S. unfold f_safe in S.
-  rewrite forallb_forall in S. specialize (S _ (run_in_paths _ (scenario_prog v md sc) o 0)).
+  pose proof (protocol_safe_b v md sc o N C) as S.
   unfold value_of, trace_of in *. destruct (run (scenario_prog v md sc) o 0) as [[r t] q]. simpl in *.
   subst r. rewrite <- (live_at_end_spec t id S). apply same_set_spec. exact H.
 Qed.
 
 Lemma protocol_ctor_dtor :
   forall (v : variant) (md : hmode) (sc : scenario) (o : nat -> bool), md <> HReturn ->
-    leak_clause_holds v sc = true -> keeps sc = false ->
+    safe_clause_holds v sc = true -> leak_clause_holds v sc = true -> keeps sc = false ->
     forall owned : list nat,
       value_of (run (scenario_prog v md sc) o 0) = Val owned ->
       owned = [] /\ forall id : nat, ~ allocated_in (trace_of (run (scenario_prog v md sc) o 0)) id.
 Proof.
-  intros v md sc o N L K owned V.
+  intros v md sc o N C L K owned V.
   pose proof (check_all_spec f_dtor check_dtor_true v md sc N) as H. unfold f_dtor in H.
-  rewrite L, K in H. cbv beta iota delta [negb orb] in H.
+  rewrite L, C, K in H. cbv beta iota delta [negb orb] in H.
   rewrite forallb_forall in H. specialize (H _ (run_in_paths _ (scenario_prog v md sc) o 0)).
-  pose proof (check_all_spec f_safe check_safe_true v md sc N) as S. unfold f_safe in S.
-  rewrite forallb_forall in S. specialize (S _ (run_in_paths _ (scenario_prog v md sc) o 0)).
+  pose proof (protocol_safe_b v md sc o N C) as S.
   unfold value_of, trace_of in *. destruct (run (scenario_prog v md sc) o 0) as [[r t] q]. simpl in *.
   subst r. destruct owned as [|x rr]; [|discriminate]. split; [reflexivity|].
   intros id A. apply (live_at_end_spec t id S) in A.
   destruct (live_at_end t); [exact A | discriminate].
+Qed.
+
+(* in-place construction: a failed mj_makeRawData / mjCModel::MakeData on a struct owned by the
+   caller leaves an object that mj_deleteData handles: every block live at that point is freed
+   exactly once (the trace is safe, so no block is freed twice, and nothing is live at the end) *)
+Lemma inplace_failure_deletable :
+  forall (v : variant) (md : hmode) (o : nat -> bool), md <> HReturn ->
+    negb (v_darena v) || v_dnull v = true ->
+    let x := run (scenario_prog v md (SC_INPLACE NP0)) o 0 in
+    safe_trace (trace_of x) = true /\
+    forall owned : list nat, value_of x = Val owned ->
+      forall id : nat, ~ allocated_in (trace_of x) id.
+Proof.
+  intros v md o N C x. split.
+  - apply protocol_safe_b; [exact N | exact C].
+  - intros owned V. exact (proj2 (protocol_ctor_dtor v md (SC_INPLACE NP0) o N C eq_refl eq_refl owned V)).
 Qed.
 
 (* ------------------------------------------------------------------ where the leak clause fails *)
@@ -422,7 +447,7 @@ Lemma compile_leak_when_raising :
   forall v : variant, v_mbuf v && v_dbuf v && v_darena v = false ->
     exists k : nat, leaks (run (scenario_prog v HJump (SC_COMPILE NP0 false)) (oracle_of [k]) 0).
 Proof.
-  intros [[] [] [] l] H; try discriminate H.
+  intros [[] [] [] l n q] H; try discriminate H.
   all: first
     [ exists 4; exists [], 2; vm_compute; repeat split; try reflexivity; [tauto | tauto]
     | exists 3; exists [], 2; vm_compute; repeat split; try reflexivity; [tauto | tauto]
@@ -435,7 +460,7 @@ Lemma compile_plugin_leak :
   forall v : variant,
     exists k : nat, leaks (run (scenario_prog v HJump (SC_COMPILE NP1 false)) (oracle_of [k]) 0).
 Proof.
-  intros [[] [] [] l]; exists 8; exists [], 5; vm_compute; repeat split; try reflexivity; tauto.
+  intros [[] [] [] l n q]; exists 8; exists [], 5; vm_compute; repeat split; try reflexivity; tauto.
 Qed.
 
 (* mj_loadModelBuffer returns NULL without deleting the model *)
@@ -443,6 +468,27 @@ Lemma load_structs_leak :
   forall (v : variant) (md : hmode), v_lstructs v = false ->
     leaks (run (scenario_prog v md (SC_LOAD LR_structs false)) (oracle_of []) 0).
 Proof.
-  intros [a b c []] md H; [discriminate|].
+  intros [a b c [] e q] md H; [discriminate|].
   destruct a, b, c, md; exists [], 0; vm_compute; repeat split; try reflexivity; tauto.
+Qed.
+
+(* ------------------------------------------------------------------ where the safety clause fails *)
+(* the arena-failure cleanup frees the new buffer but leaves d->buffer pointing at it: in place, the
+   caller's mj_deleteData frees it a second time *)
+Lemma inplace_dangling_buffer_double_free :
+  forall (v : variant) (np : npl), v_darena v = true -> v_dnull v = false ->
+    safe_trace (trace_of (run (scenario_prog v HJump (SC_INPLACE NP0)) (oracle_of [4]) 0)) = false /\
+    safe_trace (trace_of (run (scenario_prog v HJump (SC_RECOMPILE NP0)) (oracle_of [19]) 0)) = false.
+Proof.
+  intros [a b [] l [] q] np H1 H2; try discriminate.
+  destruct a, b, l, q; vm_compute; split; reflexivity.
+Qed.
+
+(* with plugin instances a failed in-place buffer allocation leaves d->nplugin and the pointers into
+   the freed buffer in place: the caller's mj_deleteData reads freed memory, for every variant *)
+Lemma inplace_plugin_use_after_free :
+  forall v : variant, v_npl v = false ->
+    safe_trace (trace_of (run (scenario_prog v HJump (SC_INPLACE NP1)) (oracle_of [6]) 0)) = false.
+Proof.
+  intros [[] [] [] [] [] []] H; try discriminate H; vm_compute; reflexivity.
 Qed.
